@@ -132,14 +132,18 @@ AnteOK(c) == SigOK(c)
 \* oracle branch: public key must hash to the signer and the signature must verify (since fix
 \* 873f403; before it the result of VerifySignature was discarded = DEV_OracleSigIgnored, kept as a
 \* switch so that the repaired defect stays expressible in the model)
-\* DEV_OracleSignerInfoCount: both oracle branches iterate over the SIGNER INFOS, not over the
-\* required signers, and never compare the two counts: a signer without signer info is not checked
-\* at all (its signature slot only has to exist: ValidateBasic counts signatures).  With the carrier
-\* behind the message the remaining signer info is compared with the wrong signer and the tx fails.
+\* Since fix 4bd9a0c the oracle branches require one signer info (with a public key) and one
+\* signature per required signer: a signer without signer info is refused ("invalid number of signer
+\* infos"), in CheckTx and DeliverTx, whatever the position of the message.
+\* DEV_OracleSignerInfoCount (kept as a switch, not in the deviation set of the current tree) = the
+\* code before that fix: both branches iterated over the SIGNER INFOS and never compared their
+\* number with the required signers, so a signer without signer info was not checked at all (with
+\* the carrier behind the message the remaining signer info was compared with the wrong signer and
+\* the tx failed).
 OracleAnteOK(c) ==
   IF c.sig = "noinfo" THEN "DEV_OracleSignerInfoCount" \in DEVS /\ c.carrier # "after"
   ELSE
-  /\ c.sig \notin {"missing", "nopub"}     \* no signatures: ValidateBasic; no public key: nil dereference, recovered
+  /\ c.sig \notin {"missing", "nopub"}     \* no signatures: ValidateBasic; no public key: ErrInvalidPubKey (4bd9a0c; a recovered nil dereference before)
   /\ CarriedPub(c) = c.claimed
   /\ (c.sig = "valid" \/ "DEV_OracleSigIgnored" \in DEVS)
 
